@@ -731,20 +731,22 @@ def lastBytes (rs : Bytes) : Bytes → Nat → Int
     let r := lastBytes rs rest (i + 1)
     if r ≥ 0 then r else if rs.isPrefixOf (b :: rest) then (i : Int) else -1
 
+/-- lastIndexRune, FoldMap hit: `for j := 0; j < len(folds) && folds[j] != 0; j++ { if sr == folds[j] }` -/
+def lastIndexRuneMembers (s : Bytes) (a b c d : Nat) : Int :=
+  lastRuneBy (fun sr => ([a, b, c, d].takeWhile (· != 0)).contains sr) s (s.length + 1) s.length
+
+/-- lastIndexRune, no FoldMap entry: upper/lower pair (strcase compares bytes backwards when `u == l`) -/
+def lastIndexRunePair (cfg : Cfg) (s : Bytes) (u : Nat) : Int :=
+  if (toUpperLower u).1 = (toUpperLower u).2.1 ∧ ¬ isByt cfg then lastBytes (encode u) s 0
+  else lastRuneBy (fun sr => sr == (toUpperLower u).1 || sr == (toUpperLower u).2.1) s (s.length + 1) s.length
+
 def lastIndexRune (cfg : Cfg) (s : Bytes) (r : Int) : Int :=
   if r = 0xFFFD then lastRuneBy (· == runeError) s (s.length + 1) s.length
   else if ¬ S.validRuneI r then -1
   else
-    let u := r.toNat
-    match foldMap u with
-    | some (a, b, c, d) =>
-      -- `for j := 0; j < len(folds) && folds[j] != 0; j++ { if sr == folds[j] }`
-      let members := [a, b, c, d].takeWhile (· != 0)
-      lastRuneBy (fun sr => members.contains sr) s (s.length + 1) s.length
-    | none =>
-      let ul := toUpperLower u
-      if ul.1 = ul.2.1 ∧ ¬ isByt cfg then lastBytes (encode u) s 0
-      else lastRuneBy (fun sr => sr == ul.1 || sr == ul.2.1) s (s.length + 1) s.length
+    match foldMap r.toNat with
+    | some (a, b, c, d) => lastIndexRuneMembers s a b c d
+    | none => lastIndexRunePair cfg s r.toNat
 
 def LastIndex (cfg : Cfg) (s sub : Bytes) : Int :=
   let n := sub.length
